@@ -22,7 +22,9 @@ EXPLANATION = (
     "the pre-existing target array must be untouched (same values object, same entries). In addition: both flags default to False "
     "at every declaration, and the CSV/Excel readers and from_csv/from_excel forward them unswapped (evaluated with a recording "
     "importer). "
-    "Fault kinds also include unknown items in the first / in a single-item dimension's column, a stray row placed first, repeated row labels; dimension columns headed by name and by letter.")
+    "Fault kinds also include unknown items in the first / in a single-item dimension's column, a stray row placed first, repeated row labels; dimension columns headed by name and by letter."
+    ' Further faults: an infinite present entry, the same combination twice with different numbers, a row relabelled onto an existing combination, rows shuffled while keeping their integer labels (boolean Series selectors align by label in the pandas model); two readers alive at the same time hand each its own flags to the importer.'
+)
 TECHNIQUE = "static analysis: abstract interpretation of the import path over a fault matrix (faults x flag combinations) with a pandas model; defaults and flag forwarding rules"
 
 ARRAYS_QUICK = [("t", "a"), ("a", "s", "b"), ("n", "a")]
